@@ -89,6 +89,8 @@ impl Block for CmaEqualizer {
             os[i] = output_sample;
         }
 
+        // Only tags of the samples actually consumed.
+        let tags: Vec<_> = tags.into_iter().filter(|t| t.pos() < len).collect();
         output.produce(len, &tags);
         input.consume(len);
 
